@@ -133,6 +133,29 @@ func c11Run(p c11Plan) *common.Fail {
 		if got := fromLibLData(l); !sameRLData(got, &want) {
 			return common.Failf("layout-decode-aliases-input", "fields decoded from %x change when that buffer is overwritten:\n now      %+v\n expected %+v", orig, *got, want)
 		}
+		// the fields are independent of each other: a relay that appends an element to the additional info it received
+		// (or octets to the payload) does not change any other field of the decoded frame
+		{
+			fresh, _ := common.RefEncodeCemi(c)
+			var m5 cemi.Message
+			if _, err := cemi.Unpack(fresh, &m5); err == nil {
+				if l5 := ldataOf(m5); l5 != nil {
+					l5.Info = append(l5.Info, 0xa5, 0x5a, 0xc3)
+					grown := want
+					grown.Info = append(append([]byte{}, want.Info...), 0xa5, 0x5a, 0xc3)
+					if got := fromLibLData(l5); !sameRLData(got, &grown) {
+						return common.Failf("layout-decode-fields-overlap", "after three octets were appended to the additional info decoded from %x the decoded frame reads\n now      %+v\n expected %+v (the info's spare capacity is another field's storage)", fresh, *got, grown)
+					}
+					if a, ok := l5.Data.(*cemi.AppData); ok {
+						a.Data = append(a.Data, 0x11, 0x22, 0x33)
+						grown.TPDU.Data = append(append([]byte{}, grown.TPDU.Data...), 0x11, 0x22, 0x33)
+						if got := fromLibLData(l5); !sameRLData(got, &grown) {
+							return common.Failf("layout-decode-fields-overlap", "after three octets were appended to the payload decoded from %x the decoded frame reads\n now      %+v\n expected %+v", fresh, *got, grown)
+						}
+					}
+				}
+			}
+		}
 		// ... and to the value: decoding the next frame into the same L_Data structure (a receive loop that reuses its
 		// variable) leaves what was handed out before - a by-value copy, the transport unit taken out of it - as it was
 		{
